@@ -114,14 +114,24 @@ def case_slice_array(ctx, ns, nswin, overlap, ndim, axis):
             ctx.oblige("slice_array_piece_values", core.eq(a, b), detail={"window": [f, l]})
 
 
-def case_valid(ctx, K):
+def case_valid(ctx, K, odd=False):
     import ibldsp.utils as u
     ns, nswin, ov = _inputs(ctx, K)
     h = ctx.int("half_overlap", 0, 10 ** 5)
-    ctx.assume(core.eq(ov, 2 * h))
+    ctx.assume(core.eq(ov, 2 * h + (1 if odd else 0)))
     wg = u.WindowGenerator(ns, nswin, ov)
     out = []
-    for tup in wg.firstlast_valid:
+    gen = wg.firstlast_valid
+    if odd:
+        # an odd overlap has no middle: the generator may refuse it (it does, with an AssertionError); if it answers, the valid ranges
+        # must still contain every sample exactly once
+        try:
+            first_item = next(gen)
+        except AssertionError:
+            ctx.oblige("odd_overlap_refused_before_any_window_is_handed_out", len(out) == 0)
+            return 0
+        out.append(first_item)
+    for tup in gen:
         out.append(tup)
         if len(out) > K:
             raise core.BoundExceeded("more windows than the stated bound K")
@@ -262,7 +272,7 @@ def case_nwin_ieee(ctx, bits_ns, bits_win):
 
 def cases(tier):
     K = bounds(tier)["max_windows_K"]
-    cs = [Case("firstlast", "case_firstlast", {"K": K}), Case("valid", "case_valid", {"K": K})]
+    cs = [Case("firstlast", "case_firstlast", {"K": K}), Case("valid", "case_valid", {"K": K}), Case("valid_odd_overlap", "case_valid", {"K": min(K, 6), "odd": True})]
     for ov in bounds(tier)["splicing_overlaps"]:
         cs.append(Case(f"splicing_ov{ov}", "case_splicing", {"K": min(K, 6 if tier == "quick" else 10), "overlap": ov}, timeout_s=3000))
     for other in ("firstlast", "slice"):
@@ -376,9 +386,12 @@ print(tot)
 if not np.allclose(tot, 1): reproduced(f'amplitudes collected with list(wg.firstlast_splicing) sum to {{tot.tolist()}} for ns={{ns}} nswin={{nswin}} overlap={{overlap}}')
 not_reproduced()
 """
-    elif case == "valid":
+    elif case in ("valid", "valid_odd_overlap"):
         body += """
-out = list(wg.firstlast_valid)
+try:
+    out = list(wg.firstlast_valid)
+except AssertionError as e:
+    not_reproduced('the generator refuses this overlap: ' + str(e))
 bad = []
 if out[0][2] != 0: bad.append('valid_starts_at_zero')
 if out[-1][3] != ns: bad.append('valid_ends_at_ns')
